@@ -40,7 +40,15 @@ func stdExternal(a *pta.Analysis, site ssa.CallInstruction, callee *ssa.Function
 		return true
 	}
 	// sort.* and strings.* etc.: no pointer-carrying effects.
-	if strings.HasPrefix(name, "(*sync.Pool).Put") || strings.HasPrefix(name, "(*sync.Map).Store") {
+	if strings.HasPrefix(name, "(*sync.Map).") || strings.HasPrefix(name, "(*sync.Pool).") {
+		switch {
+		case strings.HasSuffix(name, ".Load"), strings.HasSuffix(name, ".Range"):
+		default:
+			// Store, LoadOrStore, Delete, Swap, CompareAndSwap, Put, Get: the container changes
+			a.ExternalWrite(site, 0, "shared container update")
+		}
+	}
+	if strings.HasPrefix(name, "(*sync.Pool).Put") || strings.HasPrefix(name, "(*sync.Map).Store") || strings.HasPrefix(name, "(*sync.Map).LoadOrStore") {
 		// a value parked in a pool / shared map outlives the call: model as escape to the world
 		a.EscapeToWorld(site, 1, name, "sync")
 		if strings.Contains(name, "Store") {
